@@ -371,16 +371,6 @@ def kf_mode_roundtrip_raw_delim(case, failure):
     return False
 
 
-def kf_userinfo_nfkc_delimiter(case, failure):
-    """KF-C02-4 (= KF-C01-5 seen from C02): the unquoted canonical form of a URL whose userinfo holds the escapes of an
-    NFKC look-alike of a url delimiter does not parse, so the second call (idempotence, and quoted(unquoted(x))) raises
-    ValueError.  Recognised: the failure is 'does not parse' or the ValueError of urlsplit's NFKC check, and one of the
-    two spellings is of the class with its unquoted canonical form refused for that reason."""
-    if not ("does not parse" in failure or ("unexpected exception ValueError" in failure and "under NFKC normalization" in failure)):
-        return False
-    v = variant(case)
-    return v is not None and any(cc.kf_userinfo_nfkc_delimiter_hit(u) for u in v)
-
 
 def nontrivial(case):
     v = variant(case)
